@@ -2,7 +2,7 @@
 #if 0
 void reg_kdf() {}
 #endif
-#ifndef HAVE_DRV_ISAP
+#if 0
 void reg_isap() {}
 #endif
 #ifndef HAVE_DRV_PRNG
